@@ -174,6 +174,8 @@ func (r *run) streams(tier string) {
 		r.shared("object", i)
 		r.shared("attribute", i)
 	}
+	// the Required slice under AddRequired / RemoveRequired, through a copy and through an alias
+	r.requiredStream(nPairs / 2)
 	// 5. witness streams of the recorded findings
 	for _, w := range equalWitnesses() {
 		r.checkPair(w[0], w[1], "witness-equal", "attribute list of an inner object runs into the outer one", 0)
